@@ -393,7 +393,7 @@ def run_backend(case, backend, prog_fns):
         next(g, None)
         g.close()
         runs = [[canon(x) for x in f(shared, as_passed(case, clients))]]
-      elif mode == 'disable_jit':
+      elif mode == 'disable_jit' and backend != 'pmap':      # (op-by-op pmap is very slow; pmap gets the plain repeat)
         with jax.disable_jit():
           runs = [[canon(x) for x in f(shared, as_passed(case, clients))]]
       else:
